@@ -275,3 +275,24 @@ void h_supertype_ref(void)
         __CPROVER_assert(g_listadd_calls == (in_listed ? 1 : 2), "the supertype gains the entity as a subtype exactly when it did not list it already");
     }
 }
+
+/* C06/C04 (type aliases): TYPE a = b where b is still being resolved - i.e. a is defined, directly or indirectly, in terms of itself -
+ * is rejected with an ERROR-class diagnostic and marked failed, without touching the unfinished type's missing body; an alias of a
+ * finished type takes over that type's body */
+void h_type_alias(void)
+{
+    IN(int, in_cycle); IN(int, in_warn); g_warn_enabled = in_warn;
+    static struct Scope_ ta, tb; static struct TypeHead_ ha, hb; static struct TypeBody_ bb; static char n_a[2] = "a", n_b[2] = "b";
+    ta.u.type = &ha; ha.body = 0; ha.head = &tb; ta.symbol.name = n_a; ta.symbol.resolved = 0;
+    tb.u.type = &hb; tb.symbol.name = n_b; hb.head = 0;
+    if (in_cycle) { hb.body = 0; tb.symbol.resolved = RESOLVE_IN_PROGRESS; }      /* b waits for a (which waits for b) */
+    else { hb.body = &bb; bb.type = integer_; bb.base = 0; tb.symbol.resolved = RESOLVED; }
+    g_rep_calls = g_rep_error_class = 0;
+    Type t = &ta;
+    TYPE_resolve(&t);
+    if (in_cycle) {
+        __CPROVER_assert(g_rep_error_class >= 1 && (ta.symbol.resolved & RESOLVE_FAILED), "C04 a type defined in terms of itself is rejected with an ERROR-class diagnostic and marked failed");
+        __CPROVER_assert(g_rep_sym == &ta.symbol, "C20 the diagnostic is attributed to the type being defined");
+    } else
+        __CPROVER_assert(g_rep_calls == 0 && ha.body == &bb && !(ta.symbol.resolved & RESOLVE_FAILED), "an alias of a resolved type is resolved and shares that type's body");
+}
